@@ -79,6 +79,30 @@ Section SelfContained.
   | reach_init : forall st, reach {| objs := fun _ => None; stat := st |}
   | reach_step : forall σ e, reach σ -> reach (fst (step σ e)).
 
+  Lemma upd_same : forall f o v, upd f o v o = v.
+  Proof. intros; unfold upd; rewrite Nat.eqb_refl; reflexivity. Qed.
+  Lemma upd_other : forall f o v o', o' <> o -> upd f o v o' = f o'.
+  Proof. intros f o v o' H; unfold upd. apply Nat.eqb_neq in H. rewrite H. reflexivity. Qed.
+
+  (* destroying (or copying, assigning to, using) one object leaves every other object as it was *)
+  Definition target (e : event) : option nat :=
+    match e with Construct o _ | Copy o _ | Assign o _ | Use o _ _ | Destroy o => Some o | Env _ => None end.
+  Definition Frame_stmt : Prop :=
+    forall σ e o, target e <> Some o -> objs (fst (step σ e)) o = objs σ o.
+  Lemma frame : Frame_stmt.
+  Proof.
+    intros σ e o H. destruct e as [o1 p | o1 o2 | o1 o2 | o1 n a | o1 | st]; cbn [step target] in H |- *;
+      try reflexivity;
+      assert (o <> o1) as Hn by (intro; subst; apply H; reflexivity).
+    - cbn. apply upd_other; exact Hn.
+    - destruct (objs σ o2) as [[p s]|]; [|reflexivity]. destruct (cd_copy d); [|reflexivity]. cbn. apply upd_other; exact Hn.
+    - destruct (objs σ o1) as [[p' old]|]; [|reflexivity]. destruct (objs σ o2) as [[p s]|]; [|reflexivity].
+      destruct (cd_assign d); [|reflexivity]. cbn. apply upd_other; exact Hn.
+    - destruct (objs σ o1) as [[p s]|]; [|reflexivity]. destruct (find_method d n); [|reflexivity].
+      destruct (m_const _); [|reflexivity]. cbn. apply upd_other; exact Hn.
+    - cbn. apply upd_other; exact Hn.
+  Qed.
+
   (* "the code respects the description" *)
   Hypothesis run_footprint : forall md, In md (cd_methods d) -> pure_b md = true ->
     forall s s' st st' a,
@@ -115,11 +139,6 @@ Section SelfContained.
     unfold stable_b; intros x H. apply andb_true_iff in H. destruct H as [H H3].
     apply andb_true_iff in H. destruct H as [H1 H2]. apply negb_true_iff in H3. auto.
   Qed.
-
-  Lemma upd_same : forall f o v, upd f o v o = v.
-  Proof. intros; unfold upd; rewrite Nat.eqb_refl; reflexivity. Qed.
-  Lemma upd_other : forall f o v o', o' <> o -> upd f o v o' = f o'.
-  Proof. intros f o v o' H; unfold upd. apply Nat.eqb_neq in H. rewrite H. reflexivity. Qed.
 
   Lemma step_inv : forall σ e, Inv σ -> Inv (fst (step σ e)).
   Proof.
@@ -208,22 +227,4 @@ Section SelfContained.
     reflexivity.
   Qed.
 
-  (* destroying (or copying, assigning to, using) one object leaves every other object as it was *)
-  Definition target (e : event) : option nat :=
-    match e with Construct o _ | Copy o _ | Assign o _ | Use o _ _ | Destroy o => Some o | Env _ => None end.
-  Definition Frame_stmt : Prop :=
-    forall σ e o, target e <> Some o -> objs (fst (step σ e)) o = objs σ o.
-  Lemma frame : Frame_stmt.
-  Proof using.
-    intros σ e o H. destruct e as [o1 p | o1 o2 | o1 o2 | o1 n a | o1 | st]; cbn [step target] in *;
-      try reflexivity;
-      assert (o <> o1) as Hn by (intro; subst; apply H; reflexivity).
-    - cbn. apply upd_other; exact Hn.
-    - destruct (objs σ o2) as [[p s]|]; [|reflexivity]. destruct (cd_copy d); [|reflexivity]. cbn. apply upd_other; exact Hn.
-    - destruct (objs σ o1) as [[p' old]|]; [|reflexivity]. destruct (objs σ o2) as [[p s]|]; [|reflexivity].
-      destruct (cd_assign d); [|reflexivity]. cbn. apply upd_other; exact Hn.
-    - destruct (objs σ o1) as [[p s]|]; [|reflexivity]. destruct (find_method d n); [|reflexivity].
-      destruct (m_const _); [|reflexivity]. cbn. apply upd_other; exact Hn.
-    - cbn. apply upd_other; exact Hn.
-  Qed.
 End SelfContained.
